@@ -82,6 +82,12 @@ type G[T any] struct {
 //go:noinline
 func (g *G[T]) M(a int) int { return w(a) + 800 + g.Tag }
 
+// N: a generic method whose body's FIRST call goes to another generic method of the same type (goom finds the shape body
+// of an instantiation by following the first call of its wrapper - one hop, not two)
+//
+//go:noinline
+func (g *G[T]) N(a int) int { return g.M(a) + 50 }
+
 // M has a pointer-receiver method (mocked through Struct(&M{})) and a value-receiver method (mocked through Struct(M{})):
 // one builder addresses the same struct type through both kinds of instance.
 type M struct {
